@@ -8,16 +8,16 @@ package rostdio
 
 //@ func NewIOReader$1
 //@   note the subscribe function of NewIOReader: read, deliver a copy of what was read (also when it comes with an error), stop at the first error
-//@   props C18
+//@   props C18 C07
 //@   binds ctx destination reader
 //@   calls CompleteWithContext ErrorWithContext NextWithContext Read
 //@   params ctx destination
 //@   scope ctx destination makeslice reader
 //@   track destination.* loop.*
 //@   ensures [data-returned-with-the-last-read-is-delivered-first|C18] res(reader.Read, 0) > 0 && res(reader.Read, 1) == global_EOF ==> trace(loop.L0, destination.NextWithContext(ctx, _), destination.CompleteWithContext(ctx))
-//@   ensures [data-then-the-reader's-error|C18] res(reader.Read, 0) > 0 && res(reader.Read, 1) != global_EOF ==> trace(loop.L0, destination.NextWithContext(ctx, _), destination.ErrorWithContext(ctx, res(reader.Read, 1)))
+//@   ensures [data-then-the-reader's-error|C18,C07] res(reader.Read, 0) > 0 && res(reader.Read, 1) != global_EOF ==> trace(loop.L0, destination.NextWithContext(ctx, _), destination.ErrorWithContext(ctx, res(reader.Read, 1)))
 //@   ensures [end-of-input-completes|C18] res(reader.Read, 0) <= 0 && res(reader.Read, 1) == global_EOF ==> trace(loop.L0, destination.CompleteWithContext(ctx))
-//@   ensures [a-read-error-is-forwarded|C18] res(reader.Read, 0) <= 0 && res(reader.Read, 1) != global_EOF ==> trace(loop.L0, destination.ErrorWithContext(ctx, res(reader.Read, 1)))
+//@   ensures [a-read-error-is-forwarded|C18,C07] res(reader.Read, 0) <= 0 && res(reader.Read, 1) != global_EOF ==> trace(loop.L0, destination.ErrorWithContext(ctx, res(reader.Read, 1)))
 //@   ensures [the-delivered-chunk-has-the-length-read|C18] res(reader.Read, 0) > 0 ==> len(arg(destination.NextWithContext, 1)) == res(reader.Read, 0)
 
 //@ loop NewIOReader$1#0
@@ -27,14 +27,14 @@ package rostdio
 
 //@ func NewIOReaderLine$1
 //@   note the subscribe function of NewIOReaderLine: one bufio.Reader.ReadLine per piece; the pieces of a line longer than the reader's buffer (isPrefix) are put together again and the whole line is delivered once, as a private copy; then the reader's outcome (a partial line that was already read is delivered first)
-//@   props C18
+//@   props C18 C07
 //@   binds ctx destination
 //@   calls CompleteWithContext ErrorWithContext NewReader NextWithContext ReadLine
 //@   params ctx destination
 //@   scope ctx destination reader slicelit
 //@   track destination.* loop.* call.NewReader
 //@   ensures [end-of-input-completes|C18] res(call.Reader.ReadLine, 2) == global_EOF ==> called(destination.CompleteWithContext) && !called(destination.ErrorWithContext) && arg(destination.CompleteWithContext, 0) == ctx
-//@   ensures [a-read-error-is-forwarded|C18] res(call.Reader.ReadLine, 2) != global_EOF ==> called(destination.ErrorWithContext) && !called(destination.CompleteWithContext) && arg(destination.ErrorWithContext, 0) == ctx && arg(destination.ErrorWithContext, 1) == res(call.Reader.ReadLine, 2)
+//@   ensures [a-read-error-is-forwarded|C18,C07] res(call.Reader.ReadLine, 2) != global_EOF ==> called(destination.ErrorWithContext) && !called(destination.CompleteWithContext) && arg(destination.ErrorWithContext, 0) == ctx && arg(destination.ErrorWithContext, 1) == res(call.Reader.ReadLine, 2)
 //@   ensures [a-pending-partial-line-is-delivered-before-the-outcome|C18] count(destination.NextWithContext) <= 1
 
 //@ loop NewIOReaderLine$1#0
@@ -44,7 +44,7 @@ package rostdio
 
 //@ func NewPrompt$1
 //@   note the subscribe function of NewPrompt: one buffered reader over standard input for the whole subscription (what it read ahead is kept for the next line), the prompt before each read, each line delivered as a private copy, end of input completes
-//@   props C18
+//@   props C18 C07
 //@   binds ctx destination
 //@   calls CompleteWithContext ErrorWithContext NewReader NextWithContext ReadLine WriteString
 //@   params ctx destination
@@ -53,7 +53,7 @@ package rostdio
 //@   track destination.* loop.* call.NewReader
 //@   ensures [one-reader-for-the-subscription|C18] count(call.NewReader) == 1 && arg(call.NewReader, 0) == global_Stdin && before(call.NewReader, loop.L0)
 //@   ensures [end-of-input-completes|C18] res(call.Reader.ReadLine, 2) == global_EOF ==> trace(call.NewReader(_), loop.L0, destination.CompleteWithContext(ctx))
-//@   ensures [a-read-error-is-forwarded|C18] res(call.Reader.ReadLine, 2) != global_EOF ==> trace(call.NewReader(_), loop.L0, destination.ErrorWithContext(ctx, res(call.Reader.ReadLine, 2)))
+//@   ensures [a-read-error-is-forwarded|C18,C07] res(call.Reader.ReadLine, 2) != global_EOF ==> trace(call.NewReader(_), loop.L0, destination.ErrorWithContext(ctx, res(call.Reader.ReadLine, 2)))
 
 //@ loop NewPrompt$1#0
 //@   iteration ensures count(call.Reader.ReadLine) == 1 && res(call.Reader.ReadLine, 2) == nil && count(call.NewReader) == 0
